@@ -146,9 +146,64 @@ def mutable_values_through_a_run(ctx, rep):
     return n
 
 
+def options_survive_faulted_runs(ctx, rep):
+    """Runs in which GP fits fail (and, with use_slice_sampler=True, the sampler that supplies the restart point fails too): whatever the
+    recovery paths do, the options the user supplied still hold the supplied values afterwards."""
+    from pybads import BADS
+    import gpyreg as gpr
+    import pybads.bads.gaussian_process_train as gpt
+    rng = ctx.sub_rng("c20fault")
+    n = 0
+    variants = [{"use_slice_sampler": True}, {"use_slice_sampler": True, "gp_warnings": True, "double_refit": True},
+                {"remove_points_after_tries": 1, "noise_nudge": np.array([1.0, 0.0])}, {"use_slice_sampler": True, "uncertainty_handling": True}]
+    for v in variants:
+        D = rng.choice([1, 2])
+        noisy = bool(v.get("uncertainty_handling"))
+        user = dict(copy.deepcopy(v), display="off", max_fun_evals=(D + 26) if not noisy else 52, n_search=32, random_seed=rng.randint(1, 99))
+        keep = copy.deepcopy(user)
+        tf = (lambda x: float(np.sum(np.asarray(x) ** 2)) + 0.1 * np.random.randn()) if noisy else (lambda x: float(np.sum(np.asarray(x) ** 2)))
+        o_fit, o_ss, cnt = gpr.GP.fit, gpt.SliceSampler, [0, 0]
+        fit_faults, ss_faults = {2, 3, 5, 8, 9}, {0, 2}
+
+        def f_fit(self, *a, **k):
+            i = cnt[0]; cnt[0] += 1
+            if i in fit_faults:
+                raise np.linalg.LinAlgError("injected: matrix not positive definite")
+            return o_fit(self, *a, **k)
+
+        class FaultySampler(o_ss):
+            def sample(self, *a, **k):
+                i = cnt[1]; cnt[1] += 1
+                if i in ss_faults:
+                    raise np.linalg.LinAlgError("injected: sampler failed")
+                return super().sample(*a, **k)
+
+        gpr.GP.fit, gpt.SliceSampler = f_fit, FaultySampler
+        try:
+            a = BADS(tf, np.full(D, 0.3), np.full(D, -4.0), np.full(D, 6.0), np.full(D, -2.0), np.full(D, 3.0), options=user)
+            try:
+                a.optimize()
+            except Exception as ex:
+                rep.disagree("Opt.load ~ BADS (run with failing GP fits)", f"optimize() raised {type(ex).__name__}: {str(ex)[:80]} with options {sorted(v)}", {"kind": "options_run", "user_keys": sorted(v)})
+                continue
+        finally:
+            gpr.GP.fit, gpt.SliceSampler = o_fit, o_ss
+        n += 1
+        case = {"kind": "options_run", "D": D, "user_keys": sorted(v), "faulted": True}
+        for k in v:
+            if not same(user[k], keep[k]):
+                rep.violation("caller_dict_untouched", "gaussian_process_train.py (recovery paths)", f"a run with failing GP fits changed the caller's options dict: {k} = {user[k]!r}, supplied {keep[k]!r}", case)
+            elif noisy and k in NOISY_RESCALED:
+                pass
+            elif not same(a.options[k], keep[k]):
+                rep.violation("user_value_kept", "gaussian_process_train.py (recovery paths)", f"after a run with failing GP fits (fit invocations {sorted(fit_faults)}, sampler calls {sorted(ss_faults)}) "
+                              f"the instance's option {k} = {a.options[k]!r} differs from the supplied {keep[k]!r}", case)
+    return n
+
+
 def run(ctx):
     rep = Report()
-    nmut = mutable_values_through_a_run(ctx, rep)
+    nmut = mutable_values_through_a_run(ctx, rep) + options_survive_faulted_runs(ctx, rep)
     rng = ctx.sub_rng("c20")
     basic, adv = files()
     names = [k for k, _ in basic] + [k for k, _ in adv]
